@@ -10,7 +10,10 @@ import Aegean.Spec.C04
     sum  n  (amp xo yo sx sy theta)*n  x y     -> modelSum
     jac  n npix (amp xo yo sx sy theta mask)*n (x y)*npix
                                                -> nrows then nrows*npix entries, row-major (jacRows)
-    lmjac n npix comps… pixels… E B            -> npix then nrows, then npix*nrows entries, row-major (lmfitJac)
+    lmjac n npix comps… pixels… E B            -> npix then nrows, then npix*nrows entries, row-major (lmfitJacGen:
+                                                  the regenerated pipeline of lmfit_jacobian run by Model.runOps)
+    pipeline                                   -> src len op0 op1 … (the regenerated pipeline itself)
+    fisherwords                                -> jacC jacB sigma C <word> B <word>  (regenerated Fisher assembly of covar_errors)
           E ::= enone | escalar v | evec v*npix       B ::= bnone | bmat v*(npix*npix)
     assign mask*n                              -> for each component, six entries `idx` or `-` (assignIdx)
     assignpinned mask*n                        -> the same for the pinned loop (j reset per component)
@@ -103,7 +106,7 @@ def parseIdx? (s : String) : Option (Option Nat) :=
 def showTable (n : Nat) (t : Table) : String :=
   " ".intercalate ((keys n).map (fun k => showIdx (t k)))
 
-def handleD (D : Derivs Float) (ws : List String) : String :=
+def handleD (D : Derivs Float) (truth : Bool) (ws : List String) : String :=
   match ws with
   | "leaf" :: rest =>
     match takeFloats 8 rest with
@@ -147,7 +150,8 @@ def handleD (D : Derivs Float) (ws : List String) : String :=
             match parseB npix rest3 with
             | some (b, []) =>
               let rows := jacRows D (pairUp ps) cs
-              let out := lmfitJac rows npix errs b
+              -- `t` ops: the proved hand model; otherwise the regenerated pipeline run by the glue
+              let out := if truth then lmfitJac rows npix errs b else lmfitJacGen rows npix errs b
               s!"{npix} {rows.length} {showFloats out.flatten}"
             | _ => "bad-op"
           | none => "bad-op"
@@ -158,11 +162,17 @@ def handleD (D : Derivs Float) (ws : List String) : String :=
 
 def handle (ws : List String) : String :=
   match ws with
-  | "tleaf" :: rest => handleD handDerivs ("leaf" :: rest)
-  | "tsum" :: rest => handleD handDerivs ("sum" :: rest)
-  | "tjac" :: rest => handleD handDerivs ("jac" :: rest)
-  | "tlmjac" :: rest => handleD handDerivs ("lmjac" :: rest)
-  | "leaf" :: _ | "sum" :: _ | "jac" :: _ | "lmjac" :: _ => handleD genDerivs ws
+  | "tleaf" :: rest => handleD handDerivs true ("leaf" :: rest)
+  | "tsum" :: rest => handleD handDerivs true ("sum" :: rest)
+  | "tjac" :: rest => handleD handDerivs true ("jac" :: rest)
+  | "tlmjac" :: rest => handleD handDerivs true ("lmjac" :: rest)
+  | "leaf" :: _ | "sum" :: _ | "jac" :: _ | "lmjac" :: _ => handleD genDerivs false ws
+  | ["fisherwords"] =>
+    s!"{Gen.C04.fisJacC 0} {Gen.C04.fisJacB 0} {Gen.C04.fisSigma 0} C " ++
+      showNats ((List.range (Gen.C04.fisLenC 0)).map Gen.C04.fisWordC) ++ " B " ++
+      showNats ((List.range (Gen.C04.fisLenB 0)).map Gen.C04.fisWordB)
+  | ["pipeline"] =>
+    s!"{Gen.C04.lmjSrc 0} {Gen.C04.lmjLen 0} " ++ showNats ((List.range (Gen.C04.lmjLen 0)).map Gen.C04.lmjOp)
   | "assign" :: masks =>
     match masks.mapM parseMask? with
     | some vs => showTable vs.length (assignIdx vs)
